@@ -855,8 +855,10 @@ fn build_matcher_tree(
                     ));
                 }
 
-                let bracket = args[i - 1];
-                if bracket == "(" {
+                // Empty parentheses: the closing bracket is the first word of the group.
+                // (Looking at the previous word is not enough: it may be an operand
+                // spelled "(", as in `( -name "(" )`.)
+                if i == arg_index {
                     return Err(From::from(
                         "invalid expression; empty parentheses are not allowed.",
                     ));
